@@ -1398,6 +1398,12 @@ impl Sim {
                     vec![0xE0, 0x00]
                 }
             }
+            Adv::ClientOnlyPacket => match ix % 4 {
+                0 => vec![0xC0, 0x00],
+                1 => rf::encode(version, &rf::Packet::Subscribe(rf::Subscribe { pid: 7, entries: vec![rf::SubEntry { filter: "a/b".into(), qos: 1, ..Default::default() }], ..Default::default() }), &d),
+                2 => rf::encode(version, &rf::Packet::Unsubscribe(rf::Unsubscribe { pid: 7, filters: vec!["a/b".into()], ..Default::default() }), &d),
+                _ => rf::encode(version, &rf::Packet::Connect(rf::Connect { client_id: "srv".into(), clean_start: true, ..Default::default() }), &d),
+            },
             Adv::OversizedPacket => {
                 let max = match self.cfg.client_max_packet {
                     Some(m) if m <= 100_000 => m,
